@@ -654,11 +654,59 @@ theorem mp_roundtrip_examples :
       = .ok { key := [65], value := some [7] } [] ∧
     decodeEntry [0x82, 0xa1, 0x6b, 0xa1, 65, 0xa1, 0x6b, 0xa1, 66] = .ok { key := [66], value := none } [] := by decide
 
-/-- the general statement, NOT proved (kept as a named Prop): every list of entries with non-empty keys and lengths below 2^32
-    restores to exactly `putAll [] es`. Evaluated by the driver on every `mpenc` case (`mpenc-model-roundtrip`) and on the real code. -/
-def mp_snapshot_roundtrip_full : Prop :=
+/-- raw16: ∀ byte strings of 32 … 65535 bytes and ∀ continuations, the token reader returns what `encRaw` wrote
+    (head 0xda, two length bytes read back by `mp_length_bytes_roundtrip`) -/
+theorem mp_raw16_roundtrip (bs rest : Mp.Bytes) (h1 : 32 ≤ bs.length) (h2 : bs.length < 65536) :
+    readTok (encRaw bs ++ rest) = some (Tok.raw bs, rest) := readTok_encRaw_16 bs rest (by omega) h2
+
+example : 32 ≤ (List.replicate 40 (7 : UInt8)).length ∧ (List.replicate 40 (7 : UInt8)).length < 65536 := by decide
+
+/-- raw32: ∀ byte strings of 2^16 … 2^32-1 bytes and ∀ continuations (head 0xdb, four length bytes) -/
+theorem mp_raw32_roundtrip (bs rest : Mp.Bytes) (h1 : 65536 ≤ bs.length) (h2 : bs.length < 4294967296) :
+    readTok (encRaw bs ++ rest) = some (Tok.raw bs, rest) := readTok_encRaw_32 bs rest (by omega) (by omega) h2
+
+example : beNat (be32 70000) = 70000 := (mp_length_bytes_roundtrip 70000).2 (by decide)
+
+/-- the three ranges together: every byte string below 2^32 bytes (the format's limit) -/
+theorem mp_raw_roundtrip (bs rest : Mp.Bytes) (h : bs.length < 4294967296) :
+    readTok (encRaw bs ++ rest) = some (Tok.raw bs, rest) := readTok_encRaw bs rest h
+
+example : readTok (encRaw (List.replicate 40 7) ++ [0x82]) = some (Tok.raw (List.replicate 40 7), [0x82]) :=
+  mp_raw_roundtrip _ _ (by decide)
+
+/-- ∀ entries (key and value below 2^32 bytes, nil values included) and ∀ continuations: `dec.Decode` returns exactly the
+    entry `enc.Encode` wrote and stops exactly at its end -/
+theorem mp_entry_roundtrip (e : Entry) (rest : Mp.Bytes)
+    (hk : e.key.length < 4294967296) (hv : (valBytes e.value).length < 4294967296) :
+    decodeEntry (encEntry e ++ rest) = .ok e rest := decodeEntry_encEntry e rest hk hv
+
+example : decodeEntry (encEntry { key := [65], value := none } ++ [0x82]) = .ok { key := [65], value := none } [0x82] :=
+  mp_entry_roundtrip _ _ (by decide) (by decide)
+
+/-- the general statement, PROVED (round 8 final; it was a named Prop before): every list of entries with non-empty keys and
+    lengths below 2^32 restores to exactly `putAll [] es`, whatever the store held — `Unmarshal ∘ Marshal` over the envelope,
+    by induction over the entry list through `loop`'s fuel. Also evaluated by the driver on every `mpenc` case
+    (`mpenc-model-roundtrip`) and on the real code. -/
+theorem mp_snapshot_roundtrip_full :
   ∀ (old : Store) (es : List Entry), (∀ e ∈ es, e.key ≠ [] ∧ e.key.length < 4294967296 ∧ (valBytes e.value).length < 4294967296) →
-    unmarshal old (marshal es) = .ok (putAll [] es)
+    unmarshal old (marshal es) = .ok (putAll [] es) := unmarshal_marshal
+
+example : ∀ e ∈ cutWitness, e.key ≠ [] ∧ e.key.length < 4294967296 ∧ (valBytes e.value).length < 4294967296 := by decide
+
+/-- hence a whole dump restores to the same store whatever was there before -/
+theorem mp_restore_forgets_old (old old' : Store) (es : List Entry)
+    (h : ∀ e ∈ es, e.key ≠ [] ∧ e.key.length < 4294967296 ∧ (valBytes e.value).length < 4294967296) :
+    unmarshal old (marshal es) = unmarshal old' (marshal es) := by
+  rw [mp_snapshot_roundtrip_full old es h, mp_snapshot_roundtrip_full old' es h]
+
+/-- the statement without the non-empty-key hypothesis … -/
+def mp_snapshot_roundtrip_anykey : Prop := ∀ (old : Store) (es : List Entry), unmarshal old (marshal es) = .ok (putAll [] es)
+
+/-- … is false: an entry with an empty key is written but refused on the way back (the old content stays) -/
+theorem mp_snapshot_roundtrip_anykey_fails : ¬ mp_snapshot_roundtrip_anykey := by
+  intro h
+  have := h [([90], [9])] [{ key := [], value := some [1] }]
+  revert this; decide
 
 end MpEnvelope
 
